@@ -153,7 +153,8 @@ def _wiring_body(c, maxlen=None):
     return None
 
 
-def make_wiring(maxlen, p_io, p_iout, p_ierr, p_cc, p_mon=None, p_men=None):
+def make_wiring(maxlen, p_io, p_iout, p_ierr, p_cc, p_mon=None, p_men=None,
+                p_cn=None):
     def h(g_exit: int, g_out: str, g_err: str, r_exit: int, r_out: str,
           r_err: str, gc_exit: int, gc_out: str, gc_err: str, rc_exit: int,
           rc_out: str, rc_err: str, ignore_output: bool, ignore_out: bool,
@@ -166,6 +167,8 @@ def make_wiring(maxlen, p_io, p_iout, p_ierr, p_cc, p_mon=None, p_men=None):
                and ignore_err == p_ierr and has_cc == p_cc)
         if p_mon is not None:
             assume(mo_none == p_mon and me_none == p_men)
+        if p_cn is not None:
+            assume(moc_none == p_cn[0] and mec_none == p_cn[1])
         for k in ('g_out', 'g_err', 'r_out', 'r_err', 'gc_out', 'gc_err',
                   'rc_out', 'rc_err', 'match_out', 'match_err',
                   'match_out_cc', 'match_err_cc'):
@@ -358,12 +361,18 @@ def partitions(tier):
                         subs = [(x, y) for x in B for y in B]
                     for (x, y) in subs:
                         sfx = '' if x is None else f'_m{int(x)}{int(y)}'
-                        parts.append({
-                            'name': f'wiring_{int(a)}{int(b)}{int(c)}'
-                                    f'{int(d)}{sfx}',
-                            'fn': make_wiring(m, a, b, c, d, x, y),
-                            'budget_s': 170 if tier == 'quick' else 850,
-                            'bounds': {'max_str_len': m}})
+                        cns = [None]
+                        if d and tier != 'quick':
+                            cns = [(u, v) for u in B for v in B]
+                        for cn in cns:
+                            sf2 = '' if cn is None else \
+                                f'_c{int(cn[0])}{int(cn[1])}'
+                            parts.append({
+                                'name': f'wiring_{int(a)}{int(b)}{int(c)}'
+                                        f'{int(d)}{sfx}{sf2}',
+                                'fn': make_wiring(m, a, b, c, d, x, y, cn),
+                                'budget_s': 170 if tier == 'quick' else 850,
+                                'bounds': {'max_str_len': m}})
     for L in range(0, m + 4):
         for u in B:
             parts.append({'name': f'invoke_len{L}_u{int(u)}',
